@@ -13,13 +13,13 @@ RULE = ('the matrix {subscriber states spied / not} x {subscriber constructed in
         'start_at / after it from outside / from inside one of its handlers} x {fifo, lifo} x {0, 1, 2 other active objects already '
         'subscribed to the same signal} x {publisher states spied / not} x {publish before the publisher\'s start_at / after it from outside '
         '/ from inside a handler}; in the subscribe-inside cells two further objects subscribe from inside their own handlers at the same time, each on its own thread; in half of the spied subscribe-after / publish-after cells live spy output is on and the object is busy finishing a step while subscribe() / publish() is called from outside; in most subscribe-after cells a publication is made right after subscribe() returned, without quiescence; in a fifth of the cells the running fabric is cleared (clear() without stop()) before the subscriber under test subscribes; every cell is driven under detsched (random / PCT schedules, quiescence between phases); each unique-id '
-        'publication made after the subscription must be dispatched exactly once by the subscriber and by every earlier subscriber. '
+        'publication made after the subscription must be dispatched exactly once by the subscriber and by every earlier subscriber. In half of the subscribe-after cells with earlier subscribers a publication is still being handed to them while subscribe() is called (they must receive it once, nobody may die). '
         'distinct_nontrivial = distinct matrix cells run (x schedule in the thorough tier)')
 CELLS = list(itertools.product((True, False), (True, False), (True, False), ('before', 'after', 'inside'), ('fifo', 'lifo'), (0, 1, 2),
                                (True, False), ('before', 'after', 'inside')))
 CASES = {'quick': len(CELLS), 'thorough': len(CELLS) * 60}
 BUDGET = {'quick': 150, 'thorough': 300}
-REQUIRE = {'cells_run': 600, 'publications_checked': 1500, 'concurrent_subscribes': 150, 'cells_with_fabric_cleared_while_running': 60, 'outside_call_on_busy_object_with_live_spy': 50, 'publication_right_after_subscribe_returned': 80}
+REQUIRE = {'cells_run': 600, 'publications_checked': 1500, 'concurrent_subscribes': 150, 'cells_with_fabric_cleared_while_running': 60, 'outside_call_on_busy_object_with_live_spy': 50, 'publication_right_after_subscribe_returned': 80, 'subscribe_while_a_publication_is_being_delivered': 40}
 ASSUME = ['decoration is all-or-none per chart; phases are followed by quiescence so "later publications" is unambiguous - except the publication made right after an outside subscribe() on a running object returned, which is later by program order']
 ANNOUNCE_CASES = True
 
@@ -73,6 +73,7 @@ def run_case(ctx, n):
         earlier_checked = earlier
       twins = []
       immediate = []
+      during = []
       hs = aosim.History()
       sub = aosim.make_ao(hs, name='sub' if s_named else None, instrumented=s_instr)
       st = make_state(hs, 'c07_sub_state', s_spied, kind)
@@ -91,6 +92,12 @@ def run_case(ctx, n):
         s.quiesce()
         if busy or rng.random() < 0.3:
           sub.post_fifo(Event(signal='C07_NOISE'))
+        if earlier_checked and rng.random() < 0.5:
+          # a publication is still being handed to the EARLIER subscribers while subscribe() is called from outside (no
+          # quiescence in between): the earlier subscribers must receive it once (the new one may or may not), nobody dies
+          during.append(n * 10 + 8)
+          AO.ActiveFabric().publish(Event(signal='C07_PUB', payload=n * 10 + 8))
+          ctx.count('subscribe_while_a_publication_is_being_delivered')
         sub.subscribe(Event(signal='C07_PUB'), queue_type=kind)
         if rng.random() < 0.6:
           # a publication made RIGHT AFTER subscribe() returned (no quiescence in between, the object possibly still busy
@@ -153,7 +160,10 @@ def run_case(ctx, n):
       return
     wit['fabric_cleared_while_running_before_the_subscription'] = cleared
     for who, h in [('subscriber', hs)] + [('earlier subscriber %d' % i, h) for i, (_, h) in enumerate(earlier_checked)] + [('concurrent subscriber %d' % i, h) for i, (_, h) in enumerate(twins)]:
-      for u in uids + (immediate if not who.startswith('concurrent') else []):
+      if during and who == 'subscriber' and hs.handled.count(during[0]) > 1:
+        ctx.violation('C07/publication-received-%d-times' % hs.handled.count(during[0]), 'subscriber dispatched the publication that was in flight when it subscribed %d times' % hs.handled.count(during[0]), wit)
+        return
+      for u in uids + (immediate if not who.startswith('concurrent') else []) + (during if who.startswith('earlier') else []):
         ctx.count('publications_checked')
         c = h.handled.count(u)
         if c != 1:
